@@ -22,7 +22,7 @@ MODULE = 'EmsModel.Props.C17'
 DRIVER = 'C17'
 REQUIRED = [
     'Ems.C17.offset_roundtrip', 'Ems.C17.offset_form', 'Ems.C17.same_instant', 'Ems.C17.same_zone',
-    'Ems.C17.output_form', 'Ems.C17.format_valid', 'Ems.C17.check_redundant', 'Ems.C17.time_instants_preserved',
+    'Ems.C17.output_form', 'Ems.C17.format_valid', 'Ems.C17.format_some_iff', 'Ems.C17.check_redundant', 'Ems.C17.time_instants_preserved',
     'Ems.C17.parseUnits_spelled', 'Ems.C17.format_spelled', 'Ems.C17.ems_rewrite_gregorian',
     'Ems.C17.fill_decision', 'Ems.C17.no_new_fill', 'Ems.C17.autofill_covered',
     'Ems.C17.time_coordinate_first', 'Ems.C17.time_coordinate_none',
@@ -427,6 +427,12 @@ def units_stream(ctx) -> None:
     # ---- the model: with the code's own consistency check (`fmt`) and without it (`fmtpure`) ----------
     outs = ctx.model(lines)
     pure = ctx.model(['fmtpure' + l[3:] for l in lines])
+    # the conclusions of output_form / same_instant evaluated by the model on the same inputs
+    sub = lines[:ctx.budget(600, 6000)]
+    for l, r in zip(sub, ctx.model(['propcheck ' + l for l in sub])):
+        ctx.evaluations += 1
+        if r != '1':
+            ctx.disagree('propcheck ' + l, '1', r, {'note': 'model-side counterexample to output_form / same_instant', 'op': l})
     for k, line in enumerate(lines):
         ctx.evaluations += 1
         ctx.traces += 1
@@ -621,6 +627,63 @@ def file_fill_stream(ctx) -> None:
                 ctx.disagree(line, impl, out, desc)
     finally:
         shutil.rmtree(tmp, ignore_errors=True)
+
+
+# --------------------------------------------------------------------------
+# fix_time_units_for_ems on a file
+
+def fixattrs_stream(ctx) -> None:
+    """files written with netCDF4 directly: the time variable with / without `units` and `calendar`;
+    the real fix_time_units_for_ems against the model; nothing but the units attribute may change"""
+    import netCDF4
+    from emsarray.utils import fix_time_units_for_ems
+    rng = ctx.rng
+    tmp = tempfile.mkdtemp(prefix='c17fx')
+    items = []
+    try:
+        for k in range(ctx.budget(40, 300)):
+            case = TU.random_case(rng)
+            units = TU.spell(case) if rng.random() < 0.85 else None
+            cal = case['calendar'] if rng.random() < 0.85 else None
+            if units is not None and not ascii_ok(units):
+                continue
+            if units is not None and ('\n' in units or ' ; ' in units):
+                continue
+            path = os.path.join(tmp, f'f{k}.nc')
+            with netCDF4.Dataset(path, 'w') as nc:
+                nc.createDimension('record', 3)
+                v = nc.createVariable('t', 'f8', ('record',))
+                v[:] = [0.0, 1.5, 2.0]
+                v.long_name = 'Time'
+                if units is not None:
+                    v.units = units
+                if cal is not None:
+                    v.calendar = cal
+                w = nc.createVariable('other', 'i4', ('record',))
+                w[:] = [7, 8, 9]
+                w.units = 'days since 2000-01-01'
+            try:
+                fix_time_units_for_ems(path, 't')
+                with netCDF4.Dataset(path) as nc:
+                    v = nc.variables['t']
+                    got = esc(v.getncattr('units'))
+                    same = (list(v[:]) == [0.0, 1.5, 2.0] and v.long_name == 'Time'
+                            and (cal is None or v.calendar == cal)
+                            and sorted(v.ncattrs()) == sorted(['long_name', 'units'] + (['calendar'] if cal is not None else []))
+                            and nc.variables['other'].units == 'days since 2000-01-01' and list(nc.variables['other'][:]) == [7, 8, 9])
+                ctx.evaluated()
+                if not same:
+                    ctx.oracle_fail('time-values-recalculated', {'op': 'fixattrs', 'units': units, 'calendar': cal},
+                                    'fix_time_units_for_ems changed something other than the units attribute of the time variable')
+            except Exception:
+                got = 'ERR'
+            line = f"fixattrs {'!' if units is None else esc(units)} ; {'!' if cal is None else esc(cal)}"
+            items.append((line, got, {'op': line, 'units': units, 'calendar': cal}))
+            ctx.count('fixattrs:' + ('ERR' if got == 'ERR' else 'ok'))
+            os.unlink(path)
+    finally:
+        shutil.rmtree(tmp, ignore_errors=True)
+    ctx.check_batch(items)
 
 
 # --------------------------------------------------------------------------
@@ -1000,6 +1063,7 @@ def run(ctx) -> None:
     units_stream(ctx)
     offset_stream(ctx)
     fill_stream(ctx)
+    fixattrs_stream(ctx)
     timecoord_stream(ctx)
     roundtrip_stream(ctx)
 
